@@ -40,6 +40,7 @@ class Lock:
 # (T) facts
 
 FACTS_DYNAMIC = []
+FORWARDERS = {}
 
 
 def extract_facts():
@@ -48,6 +49,13 @@ def extract_facts():
     script = os.path.join(VERIF, "tools", "extract_facts.py")
     with Lock("lake"):
         rc, out = sh([sys.executable, script])
+        # second translator: the wrapper layer (element enums, resolved wrappers) as a table of forwarders
+        rcf, outf = sh([sys.executable, os.path.join(VERIF, "tools", "extract_forwarders.py")])
+    FORWARDERS.clear()
+    try:
+        FORWARDERS.update(json.loads(outf) if rcf == 0 else {"error": outf[-300:]})
+    except Exception:
+        FORWARDERS.update({"error": outf[-300:]})
     if rc != 0:
         return None, out
     j = json.loads(out)
